@@ -43,7 +43,12 @@ def scenarios(tier, seed):
         [{"kind": "accept", "seed": seed * 1000 + 350, "ndims": 3, "nf": 2, "nlevels": 2, "nfiles": 2, "layout": "shuffled",
           "box_sizes": [8, 16], "n0": [32, 16, 16], "all_limits": False},      # boxes of different shapes sharing a binary file
          {"kind": "accept", "seed": seed * 1000 + 351, "ndims": 3, "nf": 2, "nlevels": 2, "nfiles": 2, "layout": "shuffled",
-          "n0": [16, 16, 16], "geo_lo": [-0.008, -0.008, -0.008], "dx0": [0.001, 0.001, 0.001], "all_limits": False}]
+          "n0": [16, 16, 16], "geo_lo": [-0.008, -0.008, -0.008], "dx0": [0.001, 0.001, 0.001], "all_limits": False},
+         # repeated field names, and names that collide with the way the reader renames repetitions
+         {"kind": "accept", "seed": seed * 1000 + 352, "ndims": 3, "nf": 4, "names": ["a", "a_2", "a", "T"], "nlevels": 2, "nfiles": 2,
+          "layout": "shuffled", "all_limits": False},
+         {"kind": "accept", "seed": seed * 1000 + 353, "ndims": 2, "nf": 3, "names": ["T", "T", "T_2"], "nlevels": 1, "nfiles": 1,
+          "layout": "shuffled", "all_limits": False}]
         # (domain centred on the origin: box faces exactly at 0.0, cell sizes that are not binary fractions)
 
 
